@@ -537,6 +537,15 @@ def names_tree(t):
 
 
 def internals_job(job):
+    """I-spec binding: reads private attributes of the parser; when the implementation no longer has them the job gives
+    nothing (the binding is skipped, the A-level checks are not affected)"""
+    try:
+        return _internals_job(job)
+    except (AttributeError, TypeError, KeyError, IndexError, StopIteration, ValueError):
+        return None
+
+
+def _internals_job(job):
     """real parser internals + recorded machine runs of one grammar, for LLMachine.tla"""
     case, terms, k, smart, rev = job
     from ak.llparser import ParsingError
@@ -588,6 +597,14 @@ def clean_tree(t):
 
 
 def cleanup_job(job):
+    """I-spec binding of the generic cleanup: reads private attributes; gives nothing when they are gone"""
+    try:
+        return _cleanup_job(job)
+    except (AttributeError, TypeError, KeyError, IndexError, StopIteration, ValueError):
+        return []
+
+
+def _cleanup_job(job):
     """raw and cleaned trees of one grammar (no templates) for LLCleanup.tla"""
     case, terms, k, smart, keep = job
     from ak.llparser import ParsingError
@@ -618,6 +635,8 @@ def cleanup_check(ctx, jobs):
     """growth item: the generic cleanup (squash rules) of real parsers against LLCleanup.tla; differences are DRIFT"""
     import re as _re
     cases = [c for part in pmap(cleanup_job, jobs, chunk=50) for c in part]
+    if jobs and not cases:
+        ctx.note_drift('the parser no longer exposes what the I-spec binding (LLCleanup) reads: the binding is skipped')
     ndiff = 0
     CH = 20000
     for off in range(0, len(cases), CH):
@@ -649,6 +668,8 @@ def internals_check(ctx, jobs, what):
     Disagreements are DRIFT (the property verdicts come from the A-spec judges)."""
     import re as _re
     cases = [c for c in pmap(internals_job, jobs, chunk=50) if c is not None]
+    if jobs and not cases:
+        ctx.note_drift('the parser no longer exposes what the I-spec binding (LLMachine) reads: the binding is skipped')
     stats = {'parsers': len(cases), 'runs': sum(len(c['runs']) for c in cases), 'TABLE-DIFF': 0, 'FACTOR-DIFF': 0, 'run_diffs': 0,
              'max_machine_steps': 0}
     CH = 1500
